@@ -763,3 +763,15 @@ Proof.
     rewrite Hparse. cbn [bind]. rewrite Htag. cbn [negb]. rewrite Hlead. cbn [bind].
     split; reflexivity.
 Qed.
+
+Example cut_segment_status_ex :
+  (* a segment at 100 with 40 bytes of metadata and 60 of raw data: dp = 168, np = 228 *)
+  let l := mkLeadin TAG_DATA 14 4713 100 40 in
+  map (fun k => lead_positions 100 l (Some k)) [150; 167; 168; 200; 227; 228; 500]
+  = [Ok LeadEof; Ok LeadEof; Ok (LeadOk 168 168 true); Ok (LeadOk 168 200 true);
+     Ok (LeadOk 168 227 true); Ok (LeadOk 168 228 false); Ok (LeadOk 168 228 false)] /\
+  (* the same lead-in with the length-unknown marker is never complete *)
+  let u := mkLeadin TAG_DATA 14 4713 0xFFFFFFFFFFFFFFFF 40 in
+  map (fun k => lead_positions 100 u (Some k)) [167; 168; 228; 500]
+  = [Ok LeadEof; Ok (LeadOk 168 168 true); Ok (LeadOk 168 228 true); Ok (LeadOk 168 500 true)].
+Proof. vm_compute. split; reflexivity. Qed.
